@@ -901,6 +901,10 @@ func (r *TARun) killPending(surviveProb float64) {
 	for _, j := range r.Pending {
 		survive := j.Started && r.Rng.Float64() < surviveProb
 		if survive {
+			// a job that outlives mrp may have been computing quietly for hours: its `_log` is old (the
+			// age of `_log` says nothing about liveness — heartbeats go through the journal)
+			old := time.Now().Add(-3 * time.Hour)
+			os.Chtimes(path.Join(j.MetadataPath, "_log"), old, old)
 			keep = append(keep, j)
 			continue
 		}
